@@ -12,7 +12,7 @@ GAP = M_LAG + ":_GapResult"
 def check(ctx):
     ctx.guard(r081_082, ctx)
     ctx.guard(r083, ctx)
-
+    ctx.guard(_shared_c08, ctx)
 
 def _no_lag(fq, depth):
     return not fq.startswith(M_LAG + ":")
@@ -335,3 +335,14 @@ def r083(ctx):
     ub = kw(prim, "A_ub")
     okub = A2.eq(ub, A2.at(prim, "np.concatenate((self.gammas.sub(self.constraints.bound(), axis=0), -np.ones((len(self.constraints.index), 1))), axis=1)", np_))
     ctx.ob("R08.3", rl.func, prim.node, okub, "the inequality rows are gamma - bound - slack <= 0", construct="LP inequality rows")
+
+
+def _shared_c08(ctx):
+    """Life-cycle (history independence, pure prediction) and label-position clauses of the estimator(s) this property
+    is about, shared with C19 R19.3/R19.4 and C12 R12.1 and reported under this property's rule ids."""
+    from .c12 import label_sinks
+    from .c19 import lifecycle_of
+    ctx.rule("R08.5", "fit does not depend on state left by an earlier fit and prediction writes no state (shared with C19 R19.3 / R19.4)")
+    lifecycle_of(ctx, [EG], {"R19.3": "R08.5", "R19.4": "R08.5"})
+    ctx.rule("R08.6", "no caller-labelled pandas value reaches a label-aligning operation on the paths of this property (shared with C12 R12.1)")
+    label_sinks(ctx, "R08.6", [(EG + ".fit", EG)])
